@@ -457,7 +457,16 @@ struct Worker {
 
 impl Worker {
     fn spawn(exe: &std::path::Path) -> Worker {
-        let mut child = Command::new(exe)
+        // VH_WORKER_PREFIX="valgrind -q --error-exitcode=99" runs the worker under a dynamic analysis tool
+        let prefix: Vec<String> = std::env::var("VH_WORKER_PREFIX").map(|p| p.split_whitespace().map(|s| s.to_owned()).collect()).unwrap_or_default();
+        let mut cmd = if prefix.is_empty() {
+            Command::new(exe)
+        } else {
+            let mut c = Command::new(&prefix[0]);
+            c.args(&prefix[1..]).arg(exe);
+            c
+        };
+        let mut child = cmd
             .arg("c13child")
             .stdin(Stdio::piped())
             .stdout(Stdio::piped())
@@ -840,6 +849,29 @@ pub fn main(a: &Args) {
         _ => {}
     }
     sup.rep.add("worker.restarts", sup.w.restarts);
+    if std::env::var("VH_WORKER_PREFIX").is_ok() {
+        // let the tool finish and collect its report
+        let Worker { mut child, stdin, .. } = sup.w;
+        drop(stdin);
+        let status = child.wait().ok();
+        let mut err = String::new();
+        if let Some(mut e) = child.stderr.take() {
+            let _ = e.read_to_string(&mut err);
+        }
+        let reports: Vec<&str> = err.lines().filter(|l| l.contains("Invalid ") || l.contains("uninitialised") || l.contains("Mismatched free") || l.contains("overlap")).collect();
+        sup.rep.add("tool.report_lines", reports.len() as u64);
+        if !reports.is_empty() || status.and_then(|s| s.code()) == Some(99) {
+            let first: String = reports.first().map(|l| l.split("== ").last().unwrap_or(l).chars().take(80).collect()).unwrap_or("exit 99".into());
+            sup.rep.violation(
+                &format!("C13:valgrind:{}", first),
+                &format!("memcheck reported while decoding hostile input: {}", err.chars().take(1500).collect::<String>()),
+                json!({"cmd": "c13", "mode": mode, "seed": seed, "tool": "valgrind"}),
+                J::Null,
+            );
+        }
+        sup.rep.finish(&out);
+        return;
+    }
     let _ = sup.w.child.kill();
     sup.rep.finish(&out);
 }
